@@ -125,14 +125,78 @@ def fixed_cases():
            "S:zz4./1/904/ok.1.1;sub.ex./1/21/ok.2.10")
 
 
+# ---- the key-reload scenario: K:<step>;<step>;...  (see harness/src/bin/impl_c31.rs)
+KEY_NAMES = ["k1", "k2", "k3"]
+
+
+def fixed_key_cases():
+    yield "K:k1.a;-"                                        # the only key removed: the key set becomes EMPTY
+    yield "K:k1.a,k2.b,k3.c;k1.a,k2.b;k1.a;-;k2.a"          # removed one by one, ALL removed, one re-added
+    yield "K:-;k1.a;k1.a,k2.b;k1.a,k2.b,k3.c"               # none at start-up, added one by one
+    yield "K:k1.a;k1.b;k1.c;k1.a"                           # re-added with another algorithm / another secret
+    yield "K:k1.a,k2.c;k1.a,k2.c;k1.a,k2.c"                 # unchanged
+    yield "K:k1.a;!k1.c,K1.a;k2.b;!k2.a,k2.a;-;!k3.a,k3.b"  # rejected configurations (a key twice) change nothing
+    yield "K:-;-;k3.b;-;-"                                  # empty at start-up, empty again
+    yield "K:K1.a,k2.b;k2.b,k1.a;K2.b;k3.c,k1.c"            # letter case, order, replaced by disjoint sets
+
+
+def key_history(rng):
+    cur = {}
+    steps = []
+    for i in range(rng.randint(2, 6)):
+        r = rng.random()
+        if i > 0 and r < 0.12:
+            # a configuration the daemon must reject: some key name twice (possibly re-cased, other variant)
+            ks = {n: rng.choice("abc") for n in rng.sample(KEY_NAMES, rng.randint(1, 3))}
+            toks = [f"{n}.{v}" for n, v in ks.items()]
+            n = rng.choice(list(ks))
+            toks.insert(rng.randrange(len(toks) + 1), f"{rng.choice([n, n.upper()])}.{rng.choice('abc')}")
+            steps.append("!" + ",".join(toks))
+            continue
+        if r < 0.30:
+            cur = {}                                                    # ALL removed
+        elif r < 0.42 and i > 0:
+            pass                                                        # unchanged
+        elif r < 0.60 and cur:
+            cur = dict(cur); del cur[rng.choice(list(cur))]             # one removed
+        elif r < 0.75 and cur:
+            cur = dict(cur); n = rng.choice(list(cur))                  # one re-keyed (algorithm and/or secret)
+            cur[n] = rng.choice([v for v in "abc" if v != cur[n]])
+        elif r < 0.88 and len(cur) < 3:
+            cur = dict(cur); cur[rng.choice([n for n in KEY_NAMES if n not in cur])] = rng.choice("abc")  # one added
+        else:
+            cur = {n: rng.choice("abc") for n in rng.sample(KEY_NAMES, rng.randint(1, 3))}  # replaced wholesale
+        toks = [f"{n.upper() if rng.random() < 0.15 else n}.{v}" for n, v in cur.items()]
+        rng.shuffle(toks)
+        steps.append(",".join(toks) if toks else "-")
+    return "K:" + ";".join(steps)
+
+
 def gen(rng, tier):
     build_daemon()
     yield from fixed_cases()
     quick = tier == "quick"
-    for _ in range(150 if quick else 6000):
-        yield history(rng, 6)
-    for _ in range(25 if quick else 1000):
-        yield history(rng, 14)
+    zone_cases = [history(rng, 6) for _ in range(150 if quick else 6000)]
+    zone_cases += [history(rng, 14) for _ in range(25 if quick else 1000)]
+    # drawn AFTER the zone histories (which therefore are what they were before this scenario existed)
+    key_cases = list(fixed_key_cases()) + [key_history(rng) for _ in range(6 if quick else 400)]
+    # spread over the run (the framework shards the case list in order)
+    every = max(1, len(zone_cases) // len(key_cases))
+    for i, c in enumerate(zone_cases):
+        if i % every == 0 and key_cases:
+            yield key_cases.pop(0)
+        yield c
+    yield from key_cases
+
+
+def _key_sets(case):
+    """The key set in force after every step of a K: case (names lower-cased -> variant)."""
+    cur, out = {}, []
+    for step in case[2:].split(";"):
+        if not step.startswith("!"):
+            cur = {} if step == "-" else {k.split(".")[0].lower(): k.split(".")[1] for k in step.split(",")}
+        out.append(cur)
+    return out
 
 
 def _failing_reload(case):
@@ -141,6 +205,10 @@ def _failing_reload(case):
 
 
 def nontrivial(case, impl, model, oracle):
+    if case.startswith("K:"):
+        # a reload removed a key (or re-keyed it) that was in force before
+        ks = _key_sets(case)
+        return impl.startswith("ok") and any(b.get(n) != v for a, b in zip(ks, ks[1:]) for n, v in a.items())
     # a reload (not the initial load) saw a configured zone whose file does not load
     return impl.startswith("ok") and _failing_reload(case)
 
@@ -148,6 +216,16 @@ def nontrivial(case, impl, model, oracle):
 def classify(case, impl, model, oracle):
     if not impl.startswith("ok"):
         return " ".join(impl.split()[:2])
+    if case.startswith("K:"):
+        ks = _key_sets(case)
+        tags = []
+        if any(a and not b for a, b in zip(ks, ks[1:])):
+            tags.append("all-removed")
+        if any(n in b and b[n] != v for a, b in zip(ks, ks[1:]) for n, v in a.items()):
+            tags.append("re-keyed")
+        if "!" in case:
+            tags.append("rejected-config")
+        return "keys:" + ("+".join(tags) if tags else "plain")
     tags = []
     if _failing_reload(case):
         tags.append("failing-file")
